@@ -68,7 +68,7 @@ pub open spec fn swfe_post(w: Whirlpool, mint_a: crate::token_v2::Mint, mint_b: 
 
 // ------------------------------------------------------------------ handlers (Anchor): shims for the account wrappers
 //@ tags C03 C17 C06
-//@ assume anchor account wrappers are shims: Context (accounts behind &mut), Account<'info, T> (data + key, Deref/DerefMut), Program, Signer, UncheckedAccount, AccountInfo; every #[account(..)] attribute of the #[derive(Accounts)] structs is dropped by the extractor and NOT checked (C15: those constraints are outside this framework); Clock::get is a stub; the tick-sequence builder and the oracle accessor are stubs whose results are uninterpreted functions of their inputs; token CPIs are stubs that record a fact moved(from, to, amount)
+//@ assume anchor account wrappers are shims: Context (accounts behind &mut), Account<'info, T> (data + key, Deref/DerefMut), Program, Signer, UncheckedAccount, AccountInfo; the #[account(..)] attributes of the #[derive(Accounts)] structs become the generated precondition constraints_<Struct> (K-rules, see the per-struct assumption entries); Clock::get is a stub; the tick-sequence builder and the oracle accessor are stubs whose results are uninterpreted functions of their inputs; token CPIs are stubs that record a fact moved(from, to, amount)
 pub struct BumpsShim { pub position: u8 }
 pub struct Context<'a, 'b, 'c, 'info, T> { pub accounts: &'b mut T, pub remaining_accounts: &'c [AccountInfo<'info>], pub bumps: BumpsShim, pub p: core::marker::PhantomData<&'a ()> }
 pub use crate::authority::{AccountInfo, Signer, TokenAccount};
@@ -76,6 +76,8 @@ pub use crate::anchor_shim::Account;
 pub struct Program<'info, T> { pub k: Pubkey, pub p: core::marker::PhantomData<&'info T> }
 pub struct Token {}
 pub struct UncheckedAccount<'info> { pub k: &'info Pubkey, pub writable: bool }
+impl<'info> crate::anchor_shim::SKey for UncheckedAccount<'info> { open spec fn skey(&self) -> Pubkey { *self.k } }
+impl<'info, T> crate::anchor_shim::SKey for Program<'info, T> { open spec fn skey(&self) -> Pubkey { self.k } }
 impl<'info> UncheckedAccount<'info> {
     pub fn to_account_info(&self) -> (r: AccountInfo<'info>) ensures *r.key == *self.k, r.is_writable == self.writable { AccountInfo { key: self.k, is_signer: false, is_writable: self.writable } }
 }
@@ -157,6 +159,13 @@ pub open spec fn pool_after(w: Whirlpool, u: PostSwapUpdate, a_to_b: bool, ts: u
 //@ end
 
 //@ struct instructions/swap.rs Swap
+//@ constraints instructions/swap.rs Swap
+/// C15 (plain SPL swap): both vaults are the pool's vaults and both trader accounts hold the pool's mints
+pub open spec fn belongs_swap(a: Swap<'_>) -> bool {
+    let w = a.whirlpool.data;
+    &&& a.token_vault_a.k == w.token_vault_a && a.token_vault_b.k == w.token_vault_b
+    &&& a.token_owner_account_a.data.mint == w.token_mint_a && a.token_owner_account_b.data.mint == w.token_mint_b
+}
 pub open spec fn ta_keys3(a: Pubkey, b: Pubkey, c: Pubkey) -> Seq<Pubkey> { seq![a, b, c] }
 /// C03 (thresholds), C17 (the single swap that a two-hop leg must equal), C06 (what is moved): a successful swap instruction
 /// applies exactly the result of the swap loop on (pool, tick arrays built from the three supplied accounts, oracle state) to the pool account,
@@ -177,8 +186,10 @@ pub open spec fn swap_v1_post(a0: Swap<'_>, a1: Swap<'_>, amount: u64, thr: u64,
     &&& traded_emitted(Traded { whirlpool: wk, a_to_b: a_to_b, pre_sqrt_price: w0.sqrt_price, post_sqrt_price: u.next_sqrt_price, input_amount: in_of(*u, a_to_b), output_amount: out_of(*u, a_to_b),
             input_transfer_fee: 0, output_transfer_fee: 0, lp_fee: u.lp_fee, protocol_fee: u.next_protocol_fee })
 }
-//@ fn instructions/swap.rs handler -> r as=swap_handler tags=C03,C17,C06
-    ensures r is Ok ==> swap_v1_post(*old(ctx.accounts), *final(ctx.accounts), amount, other_amount_threshold, sqrt_price_limit, amount_specified_is_input, a_to_b),
+//@ fn instructions/swap.rs handler -> r as=swap_handler tags=C03,C17,C06,C15
+    requires constraints_Swap(old(ctx.accounts)),
+    ensures r is Ok ==> belongs_swap(*old(ctx.accounts)), //# C15
+        r is Ok ==> swap_v1_post(*old(ctx.accounts), *final(ctx.accounts), amount, other_amount_threshold, sqrt_price_limit, amount_specified_is_input, a_to_b),
 //@ rewrite /emit!\(Traded \{/ => /emit_traded(Traded {/
 //@ inject before /^    Ok\(\(\)\)/
     proof {
@@ -192,6 +203,15 @@ pub open spec fn swap_v1_post(a0: Swap<'_>, a1: Swap<'_>, amount: u64, thr: u64,
 //@ end
 
 //@ struct instructions/two_hop_swap.rs TwoHopSwap
+//@ constraints instructions/two_hop_swap.rs TwoHopSwap
+/// C15 (two-hop, plain SPL): the same for each of the two pools
+pub open spec fn belongs_two_hop(a: TwoHopSwap<'_>) -> bool {
+    let w1 = a.whirlpool_one.data; let w2 = a.whirlpool_two.data;
+    &&& a.token_vault_one_a.k == w1.token_vault_a && a.token_vault_one_b.k == w1.token_vault_b
+    &&& a.token_vault_two_a.k == w2.token_vault_a && a.token_vault_two_b.k == w2.token_vault_b
+    &&& a.token_owner_account_one_a.data.mint == w1.token_mint_a && a.token_owner_account_one_b.data.mint == w1.token_mint_b
+    &&& a.token_owner_account_two_a.data.mint == w2.token_mint_a && a.token_owner_account_two_b.data.mint == w2.token_mint_b
+}
 /// C17 / C03 for the two-hop instruction (plain SPL tokens): success implies
 ///  - two distinct pools sharing the intermediate mint,
 ///  - exact-in: leg one is the single swap of `amount`, leg two the single swap whose input is leg one's output; exact-out: leg two is the single
@@ -232,7 +252,9 @@ pub open spec fn two_hop_v1_legs(a0: TwoHopSwap<'_>, a1: TwoHopSwap<'_>, amount:
     }
 }
 //@ fn instructions/two_hop_swap.rs handler -> r as=two_hop_swap_handler tags=C17,C03
-    ensures r is Ok ==> two_hop_v1_post(*old(ctx.accounts), *final(ctx.accounts), amount, other_amount_threshold, amount_specified_is_input, a_to_b_one, a_to_b_two, sqrt_price_limit_one, sqrt_price_limit_two),
+    requires constraints_TwoHopSwap(old(ctx.accounts)),
+    ensures r is Ok ==> belongs_two_hop(*old(ctx.accounts)), //# C15
+        r is Ok ==> two_hop_v1_post(*old(ctx.accounts), *final(ctx.accounts), amount, other_amount_threshold, amount_specified_is_input, a_to_b_one, a_to_b_two, sqrt_price_limit_one, sqrt_price_limit_two),
 //@ rewrite /emit!\(Traded \{/ => /emit_traded(Traded {/ 2
 //@ inject before /^    Ok\(\(\)\)/
     proof {
@@ -248,9 +270,11 @@ pub open spec fn two_hop_v1_legs(a0: TwoHopSwap<'_>, a1: TwoHopSwap<'_>, amount:
 // ------------------------------------------------------------------ v2 (token-extension aware) handlers
 //@ tags C03 C16 C17
 pub struct Interface<'info, T> { pub k: Pubkey, pub p: core::marker::PhantomData<&'info T> }
+impl<'info, T> crate::anchor_shim::SKey for Interface<'info, T> { open spec fn skey(&self) -> Pubkey { self.k } }
 pub struct TokenInterface {}
 pub struct Memo {}
 pub use crate::token_v2::Mint;
+impl<'a> crate::anchor_shim::SOwner for InterfaceAccount<'a, Mint> { open spec fn sowner(&self) -> Pubkey { self.data.owner_program } }
 //@ enum util/v2/remaining_accounts_utils.rs AccountsType
 //@ struct util/v2/remaining_accounts_utils.rs RemainingAccountsSlice RemainingAccountsInfo ParsedRemainingAccounts
 #[verifier::external_body]
@@ -294,6 +318,15 @@ pub fn transfer_from_vault_to_owner_v2<'info>(whirlpool: &Account<'info, Whirlpo
 //@ end
 
 //@ struct instructions/v2/swap.rs SwapV2
+//@ constraints instructions/v2/swap.rs SwapV2
+/// C15 (swap_v2): additionally the mint accounts are the pool's mints and each token program is the program that owns its mint
+pub open spec fn belongs_swap_v2(a: SwapV2<'_>) -> bool {
+    let w = a.whirlpool.data;
+    &&& *a.token_vault_a.info.key == w.token_vault_a && *a.token_vault_b.info.key == w.token_vault_b
+    &&& a.token_owner_account_a.data.mint == w.token_mint_a && a.token_owner_account_b.data.mint == w.token_mint_b
+    &&& *a.token_mint_a.info.key == w.token_mint_a && *a.token_mint_b.info.key == w.token_mint_b
+    &&& a.token_program_a.k == a.token_mint_a.data.owner_program && a.token_program_b.k == a.token_mint_b.data.owner_program
+}
 /// C03 / C16 for swap_v2: as swap_v1_post, with the transfer-fee aware computation (swfe_post) in place of the bare loop; the minimum-output threshold
 /// is compared with what the trader actually receives (curve output minus the OUTPUT mint's fee), the maximum-input threshold with what the trader is
 /// charged (fee-included input); the event reports the moved amounts and the fees the two mints withhold from them.
@@ -318,7 +351,9 @@ pub open spec fn swap_v2_post(a0: SwapV2<'_>, a1: SwapV2<'_>, rem: Seq<AccountIn
     &&& exists|u: PostSwapUpdate| #[trigger] swap_v2_legs(a0, a1, s, afi, amount, thr, limit, is_in, a_to_b, u)
 }
 //@ fn instructions/v2/swap.rs handler -> r as=swap_v2_handler tags=C03,C16,C17
-    ensures r is Ok ==> swap_v2_post(*old(ctx.accounts), *final(ctx.accounts), ctx.remaining_accounts@, remaining_accounts_info, amount, other_amount_threshold, sqrt_price_limit, amount_specified_is_input, a_to_b),
+    requires constraints_SwapV2(old(ctx.accounts)),
+    ensures r is Ok ==> belongs_swap_v2(*old(ctx.accounts)), //# C15
+        r is Ok ==> swap_v2_post(*old(ctx.accounts), *final(ctx.accounts), ctx.remaining_accounts@, remaining_accounts_info, amount, other_amount_threshold, sqrt_price_limit, amount_specified_is_input, a_to_b),
 //@ rewrite /emit!\(Traded \{/ => /emit_traded(Traded {/
 //@ rewrite /transfer_memo::TRANSFER_MEMO_SWAP\.as_bytes\(\)/ => /memo_bytes(transfer_memo::TRANSFER_MEMO_SWAP)/
 //@ inject before /^    Ok\(\(\)\)/
@@ -335,6 +370,22 @@ pub open spec fn swap_v2_post(a0: SwapV2<'_>, a1: SwapV2<'_>, rem: Seq<AccountIn
 //@ end
 
 //@ struct instructions/v2/two_hop_swap.rs TwoHopSwapV2
+//@ constraints instructions/v2/two_hop_swap.rs TwoHopSwapV2 method:input_token_mint method:output_token_mint method:input_token_vault method:output_token_vault
+/// C15 (two_hop_swap_v2): input / intermediate / output mints and the four vaults are those of the two pools for the two directions, the trader's
+/// accounts hold the input and the output mint, and each token program owns its mint
+pub open spec fn belongs_two_hop_v2(a: TwoHopSwapV2<'_>, a_to_b_one: bool, a_to_b_two: bool) -> bool {
+    let w1 = a.whirlpool_one.data; let w2 = a.whirlpool_two.data;
+    &&& *a.token_mint_input.info.key == (if a_to_b_one { w1.token_mint_a } else { w1.token_mint_b })
+    &&& *a.token_mint_intermediate.info.key == (if a_to_b_one { w1.token_mint_b } else { w1.token_mint_a })
+    &&& *a.token_mint_output.info.key == (if a_to_b_two { w2.token_mint_b } else { w2.token_mint_a })
+    &&& *a.token_vault_one_input.info.key == (if a_to_b_one { w1.token_vault_a } else { w1.token_vault_b })
+    &&& *a.token_vault_one_intermediate.info.key == (if a_to_b_one { w1.token_vault_b } else { w1.token_vault_a })
+    &&& *a.token_vault_two_intermediate.info.key == (if a_to_b_two { w2.token_vault_a } else { w2.token_vault_b })
+    &&& *a.token_vault_two_output.info.key == (if a_to_b_two { w2.token_vault_b } else { w2.token_vault_a })
+    &&& a.token_owner_account_input.data.mint == *a.token_mint_input.info.key && a.token_owner_account_output.data.mint == *a.token_mint_output.info.key
+    &&& a.token_program_input.k == a.token_mint_input.data.owner_program && a.token_program_intermediate.k == a.token_mint_intermediate.data.owner_program
+        && a.token_program_output.k == a.token_mint_output.data.owner_program
+}
 pub open spec fn event_for(wk: Pubkey, w0: Whirlpool, a_to_b: bool, u: PostSwapUpdate, min: Mint, mout: Mint) -> bool {
     exists|e: Traded| #[trigger] traded_emitted(e) && e.whirlpool == wk && e.a_to_b == a_to_b && e.pre_sqrt_price == w0.sqrt_price && e.post_sqrt_price == u.next_sqrt_price
         && e.input_amount == in_of(u, a_to_b) && e.output_amount == out_of(u, a_to_b)
@@ -380,7 +431,9 @@ pub open spec fn two_hop_v2_post(a0: TwoHopSwapV2<'_>, a1: TwoHopSwapV2<'_>, rem
     &&& exists|u1: PostSwapUpdate, u2: PostSwapUpdate| #[trigger] two_hop_v2_legs(a0, a1, s1, s2, afi1, afi2, amount, thr, is_in, a_to_b_one, a_to_b_two, limit_one, limit_two, u1, u2)
 }
 //@ fn instructions/v2/two_hop_swap.rs handler -> r as=two_hop_swap_v2_handler tags=C17,C03,C16
-    ensures r is Ok ==> two_hop_v2_post(*old(ctx.accounts), *final(ctx.accounts), ctx.remaining_accounts@, remaining_accounts_info, amount, other_amount_threshold, amount_specified_is_input, a_to_b_one, a_to_b_two, sqrt_price_limit_one, sqrt_price_limit_two),
+    requires constraints_TwoHopSwapV2(old(ctx.accounts), a_to_b_one, a_to_b_two),
+    ensures r is Ok ==> belongs_two_hop_v2(*old(ctx.accounts), a_to_b_one, a_to_b_two), //# C15
+        r is Ok ==> two_hop_v2_post(*old(ctx.accounts), *final(ctx.accounts), ctx.remaining_accounts@, remaining_accounts_info, amount, other_amount_threshold, amount_specified_is_input, a_to_b_one, a_to_b_two, sqrt_price_limit_one, sqrt_price_limit_two),
 //@ rewrite /emit!\(Traded \{/ => /emit_traded(Traded {/ 2
 //@ rewrite /transfer_memo::TRANSFER_MEMO_SWAP\.as_bytes\(\)/ => /memo_bytes(transfer_memo::TRANSFER_MEMO_SWAP)/
 //@ inject before /^    Ok\(\(\)\)/
@@ -405,23 +458,27 @@ pub open spec fn two_hop_v2_post(a0: TwoHopSwapV2<'_>, a1: TwoHopSwapV2<'_>, rem
     ensures r is Err,
 //@ end
 /// reachability canary (must FAIL): the same body with the contract 'never succeeds'
-//@ fn instructions/swap.rs handler -> r as=reach_canary_swap_handler tags=C03,C17,C06
+//@ fn instructions/swap.rs handler -> r as=reach_canary_swap_handler tags=C03,C17,C06,C15
+    requires constraints_Swap(old(ctx.accounts)),
     ensures r is Err,
 //@ rewrite /emit!\(Traded \{/ => /emit_traded(Traded {/
 //@ end
 /// reachability canary (must FAIL): the same body with the contract 'never succeeds'
 //@ fn instructions/two_hop_swap.rs handler -> r as=reach_canary_two_hop_swap_handler tags=C17,C03
+    requires constraints_TwoHopSwap(old(ctx.accounts)),
     ensures r is Err,
 //@ rewrite /emit!\(Traded \{/ => /emit_traded(Traded {/ 2
 //@ end
 /// reachability canary (must FAIL): the same body with the contract 'never succeeds'
 //@ fn instructions/v2/swap.rs handler -> r as=reach_canary_swap_v2_handler tags=C03,C16,C17
+    requires constraints_SwapV2(old(ctx.accounts)),
     ensures r is Err,
 //@ rewrite /emit!\(Traded \{/ => /emit_traded(Traded {/
 //@ rewrite /transfer_memo::TRANSFER_MEMO_SWAP\.as_bytes\(\)/ => /memo_bytes(transfer_memo::TRANSFER_MEMO_SWAP)/
 //@ end
 /// reachability canary (must FAIL): the same body with the contract 'never succeeds'
 //@ fn instructions/v2/two_hop_swap.rs handler -> r as=reach_canary_two_hop_swap_v2_handler tags=C17,C03,C16
+    requires constraints_TwoHopSwapV2(old(ctx.accounts), a_to_b_one, a_to_b_two),
     ensures r is Err,
 //@ rewrite /emit!\(Traded \{/ => /emit_traded(Traded {/ 2
 //@ rewrite /transfer_memo::TRANSFER_MEMO_SWAP\.as_bytes\(\)/ => /memo_bytes(transfer_memo::TRANSFER_MEMO_SWAP)/
